@@ -133,3 +133,60 @@ def check(prog, rep, rule='R3.7', floor=8):
 
 def sign(c):
     return 'negative' if c[1] < 0 else ('above INT64_MAX' if c[0] > I64MAX else 'non-negative')
+
+
+class NanModel(KeyModel):
+    """stored key and requested key are the same NaN (the visiting loop hands the key it has just read back to the lookup)"""
+
+    def compare(self, it, fr, n, op, a, b):
+        if isinstance(a, Sym) and a.tag == 'NAN' or isinstance(b, Sym) and b.tag == 'NAN':
+            for x in n['c'][:2]:
+                s = strip(x)
+                if s is not None and s['k'] == 'UnaryOperator' and s.get('op') == '&':
+                    return KeyModel.compare(self, it, fr, n, op, a, b)
+            return 1 if op == '!=' else 0          # IEEE 754: every ordered comparison with NaN is false, != is true
+        return KeyModel.compare(self, it, fr, n, op, a, b)
+
+    def primitive(self, it, fr, n, callee, depth):
+        if callee['n'] in ('isnan', '__builtin_isnan'):
+            obj, args = it.call_args(fr, n)
+            v = it.ev(fr, args[0], depth) if args else TOP
+            return 1 if isinstance(v, Sym) and v.tag == 'NAN' else 0
+        return KeyModel.primitive(self, it, fr, n, callee, depth)
+
+
+def check_reflexive(prog, rep, rule):
+    """VisitKeys reads a key into the scope's key storage and calls back with a reference to it; the map loader passes that reference to
+    Serialize(scope, key, value), whose lookup first asks `current key == key`. If that answer is 'no' for the very key just read - which
+    happens exactly for a floating-point NaN - the lookup skips the value and searches the whole map again, re-reading keys into the storage
+    the request aliases: the first key then compares equal to 'itself', the cursor jumps back to entry 1 and the visiting loop never ends.
+    Decided: operator==<float|double> executed with stored key = requested key = NaN answers 'equal'."""
+    rep.rule(rule, 'CVariableKey::operator==<floating T> is reflexive on the stored key: with the stored and the requested key the same NaN it '
+                   'answers equal (the key-visiting loop hands each key it has read back to the lookup and relies on that to advance)', floor=1)
+    fs = [f for f in prog.funcs.values() if strip_targs(f.q) == CLS + '::operator==' and len(f.params) == 1]
+    n = 0
+    for f in sorted(fs, key=lambda g: g.id):
+        bt = base_type(f.type(f.params[0])) if 't' in f.params[0] else ''
+        if bt not in ('float', 'double'):
+            continue
+        n += 1
+        rep.touch(f)
+        it = KeyInterp(prog, NanModel(bt, Sym('NAN')), max_depth=1, max_paths=100)
+
+        def init(it_, fr):
+            fr.env[f.params[0]['d']] = Sym('NAN')
+        res = set()
+        for p in it.run(f, init):
+            v = p.outcome[1] if p.outcome[0] == 'RET' else 'throw'
+            if isinstance(v, bool):
+                v = int(v)
+            res.add('equal' if v == 1 else ('differ' if v == 0 else str(v)))
+        if res == {'equal'}:
+            rep.ok(rule, 'operator==<%s>|NaN' % bt)
+        else:
+            rep.finding(rule, 'operator==<%s>|NaN key not equal to itself' % bt, f.loc(),
+                        'CVariableKey::operator==<%s>: a stored NaN key does not compare equal to itself (%s): loading a MsgPack map with a NaN key into '
+                        'std::map<%s, ...> makes the lookup search the map again through the storage the requested key aliases, the cursor returns '
+                        'to the first entry and VisitKeys never terminates' % (bt, sorted(res), bt), func=f.id)
+    if n == 0:
+        raise AnalysisBroken('%s: no floating-point instantiation of CVariableKey::operator== in the analysed units' % rule)
